@@ -184,11 +184,14 @@ class PendingIf(_PendingCompoundStmt[If]):
         orelse = self.nsp_global.expr_wraper(self.converted_orelse)
         if self.nsp_global.configs.if_style == "short_circuit":
             if len(self.converted_orelse) > 0:
-                # a one-element list display is true whatever the body gives,
-                # and it doesn't ask the body's value for its truth value
-                body_or_true = List(elts=[body], ctx=Load())
-                semi_if = BoolOp(op=And(), values=[test, body_or_true])
-                return [BoolOp(op=Or(), values=[semi_if, orelse])]
+                # (not test and [orelse]) or body
+                # "not" asks the test for its truth value, once, and gives a bool;
+                # a one-element list display is true whatever the branch gives,
+                # and nobody asks the value of a branch for its truth value
+                orelse_or_true = List(elts=[orelse], ctx=Load())
+                not_test = UnaryOp(op=Not(), operand=test)
+                semi_if = BoolOp(op=And(), values=[not_test, orelse_or_true])
+                return [BoolOp(op=Or(), values=[semi_if, body])]
             else:
                 return [BoolOp(op=And(), values=[test, body])]
         else:  # if_style=="if_expr"
